@@ -403,6 +403,30 @@ class BroadcastUnary(Sub):
             if op == "scale" and glt in NO_SCALE and isinstance(got, torch.Tensor):
                 rec.label("scale_ones")
                 rec.check(tuple(got.shape) == tuple(sh) + (1,) and bool((got == 1).all()), "scale_ones", "scale() of %s %s: shape %s, not all ones of shape lshape+(1,)" % (lt, sh, tuple(got.shape)))
+        # every operation once more on the SAME object after its values were changed in place (an optimiser step, add_, copy_): must
+        # equal the operation on a fresh tensor with the new values.  A result / matrix cached on the object and never invalidated
+        # is invisible to any single call (seeds C01d, C05e).
+        if X.numel() > 0:
+            Xalt = _rand_lie(lt, sh, rs, dtype)
+            with torch.no_grad():
+                X.tensor().copy_(Xalt.tensor())
+            rec.label("reuse_after_inplace_change")
+            for op in (UNARY_G if isg else UNARY_A):
+                if op in ("randn_like", "mul_number") or (op == "Jr" and lt not in ("SO3", "so3")):
+                    continue
+                f = UNARY_F[op]
+                with warnings.catch_warnings():
+                    warnings.simplefilter("ignore")
+                    with rec.sut(op + " (same object, values changed in place)"):
+                        again = f(X)
+                        fresh = f(pp.LieTensor(Xalt.tensor().clone(), ltype=tu.LT[lt]))
+                ga, fr = _t(again), _t(fresh)
+                tolr = 64 * tu.EPS[dtype] * (1.0 + (float(fr.abs().max()) if fr.numel() and bool(torch.isfinite(fr).all()) else 0.0))
+                rec.check(ga.shape == fr.shape and bool(torch.allclose(ga, fr, rtol=0, atol=tolr, equal_nan=True)), "reuse:" + op,
+                          lambda: "%s of a %s whose values were changed in place differs from %s of a fresh element with the same values by %.3g: "
+                          "a result cached on the object?" % (op, lt, op, float((ga - fr).abs().max()) if ga.shape == fr.shape and ga.numel() else float("nan")))
+            with torch.no_grad():
+                X.tensor().copy_(X0)
         # lshape / lview
         d = X.shape[-1]
         with rec.sut("lshape"):
